@@ -14,7 +14,7 @@ import (
 
 func init() {
 	Register(&PropDef{
-		ID: "C10", QuickRuns: 2400, Level: "exploration",
+		ID: "C10", QuickRuns: 2400, RaceRuns: 240, Level: "exploration", Race: true,
 		Rule: "one run = 0-6 associations with 0-2 sessions each on the BESS datapath; per association one trigger is drawn from {none, Association Release, peer silent past the read timeout, heartbeats unanswered}, optionally SIGTERM (Stop) for the agent, all timed on the virtual clock to collide around one instant (offsets of microseconds to hundreds of milliseconds), with a session request in flight, under all scheduling strategies (PCT change points, statement-level pre-emption) and optional faults (datagram loss, agent stall, slow BESS RPCs beyond the join timeout, ICMP unreachable); optionally a peer the agent has never heard of sends its first datagram so that it arrives within nanoseconds to hundreds of microseconds of the stop, and optionally the agent itself opens an association towards a configured peer, possibly listed twice (two connections behind one key of the node's map). One run in six plays the end of an association (release / silence / stop) on the P4Runtime datapath with 2-4 sessions per association and one failing Write RPC inside the teardown: every session but the one hit by the failure must be gone from the switch. Oracle: no panic / Fatal; every key installed for a session of an ended association is deleted exactly once and nothing of it remains; the peer can associate afresh and is served; untouched associations keep their sessions and answer heartbeats; after SIGTERM Run() returns within read_timeout + (retries+1) x resp_timeout + 10 s of virtual time. Non-trivial = at least one association with a session and one trigger fired; distinct = different multiset of (trigger, #sessions) plus stop/fault kinds plus outcome. Also: a released peer back within scheduling steps / microseconds of the close of its old connection, establishing sessions before the stop.",
 		Assume: []string{"main() returns when Run() returns: the process exits and every other goroutine dies with it (sessions not yet removed at that moment stay in the datapath)",
 			"delete commands are counted at the simulated BESS daemon; a delete hit by an injected RPC fault may be missing"},
